@@ -22,12 +22,27 @@ pub enum BOp {
     Find(i64, i64, i64, i64),
     Reverse(i64, i64, i64),
     Swap(i64, i64, i64),
+    /// open file number `file` of the fixture, fs.read_bytes(n), close: a byte buffer produced by std.fs
+    ReadFile { file: usize, n: i64, uniq: u64 },
     /// fs.close / net.close applied to a handle of the resource table
     FsClose(i64),
     NetClose(i64),
     /// a call with an operand of the wrong type (source text kept verbatim)
     NonInt(String),
 }
+/// fixture files (created under .cache by `fixture_dir`): lengths 0, 3, 10, 100; byte i of a file is (i * 7 + len) mod 256
+pub const FILE_LENS: [usize; 4] = [0, 3, 10, 100];
+pub fn file_content(len: usize) -> Vec<u8> { (0..len).map(|i| ((i * 7 + len) % 256) as u8).collect() }
+pub fn fixture_dir() -> String {
+    let d = format!("{}/.cache/c09-files/{}", env!("CARGO_MANIFEST_DIR").split("/.cache").next().unwrap_or("/verif"), std::process::id());
+    let d = if d.starts_with("/verif") || std::path::Path::new(&d).parent().is_some() { d } else { format!("/tmp/c09-files/{}", std::process::id()) };
+    std::fs::create_dir_all(&d).expect("fixture dir");
+    for len in FILE_LENS { std::fs::write(format!("{}/f{}.bin", d, len), file_content(len)).expect("fixture file"); }
+    d
+}
+thread_local! { pub static FIXTURE: std::cell::RefCell<String> = std::cell::RefCell::new(String::new()); }
+fn fixture() -> String { FIXTURE.with(|f| { if f.borrow().is_empty() { *f.borrow_mut() = fixture_dir(); } f.borrow().clone() }) }
+
 const STRINGS: [&str; 8] = ["", "a", "hello", "Meow 42", "h\u{e9}llo", "\u{65e5}\u{672c}", "x y z", "\u{1F600}!"];
 
 const MAX_ALLOC: i64 = 256 * 1024 * 1024; // only used to pick "too large" sizes; the model takes the real constant from the source
@@ -56,6 +71,7 @@ fn src(op: &BOp) -> String {
         BOp::Find(h, a, b, n) => format!("bytes.find({}, {}, {}, {})", h, a, b, n),
         BOp::Reverse(h, o, l) => format!("bytes.reverse({}, {}, {})", h, o, l),
         BOp::Swap(h, i, j) => format!("bytes.swap({}, {}, {})", h, i, j),
+        BOp::ReadFile { file, n, uniq } => format!("let rf{u} = fsys.open(\"{d}/f{l}.bin\", \"r\")\nlet rb{u} = fsys.read_bytes(rf{u}, {n})\nfsys.close(rf{u})\nrb{u}", u = uniq, d = fixture(), l = FILE_LENS[*file], n = n),
         BOp::FsClose(h) => format!("fsys.close({})", h),
         BOp::NetClose(h) => format!("netw.close({})", h),
         BOp::NonInt(t) => t.clone(),
@@ -85,6 +101,7 @@ fn coq(op: &BOp) -> String {
         BOp::Find(h, a, bb, n) => format!("BFind {} {} {} {}", z(*h), z(*a), z(*bb), z(*n)),
         BOp::Reverse(h, o, l) => format!("BReverse {} {} {}", z(*h), z(*o), z(*l)),
         BOp::Swap(h, i, j) => format!("BSwap {} {} {}", z(*h), z(*i), z(*j)),
+        BOp::ReadFile { file, n, .. } => format!("BReadFile [{}] {}", file_content(FILE_LENS[*file]).iter().map(|b| b.to_string()).collect::<Vec<_>>().join("; "), z(*n)),
         BOp::FsClose(h) => format!("BFsClose {}", z(*h)),
         BOp::NetClose(h) => format!("BNetClose {}", z(*h)),
         BOp::NonInt(_) => "BNonInt".into(),
@@ -191,6 +208,7 @@ fn ref_step(r: &mut RefB, op: &BOp) -> Want {
             _ => Want::Err },
         // closing a byte buffer as a file must be refused; net.close is documented as a no-op for non-sockets.
         // Either way the whole-state comparison below demands that every buffer is still there.
+        BOp::ReadFile { file, n, .. } => { let c = file_content(FILE_LENS[*file]); let k = (*n as usize).min(c.len()); Want::FreshHandleWith(c[..k].to_vec()) }
         BOp::FsClose(_) => Want::Err,
         BOp::NetClose(_) => Want::Any,
         BOp::NonInt(_) => Want::Err,
@@ -201,7 +219,7 @@ fn op_kind(op: &BOp) -> &'static str {
     match op { BOp::Alloc(_) => "alloc", BOp::Free(_) => "free", BOp::Size(_) => "size", BOp::Resize(..) => "resize", BOp::Read { .. } => "read",
                BOp::Write { .. } => "write", BOp::WriteF { .. } => "write_f", BOp::Copy(..) => "copy", BOp::Fill(..) => "fill",
                BOp::Clone(_) => "clone", BOp::Equals(..) => "equals", BOp::FromString(_) => "from_string", BOp::Decode(..) => "decode",
-               BOp::WriteString(..) => "write_string", BOp::Find(..) => "find", BOp::Reverse(..) => "reverse", BOp::Swap(..) => "swap", BOp::FsClose(_) => "fs_close", BOp::NetClose(_) => "net_close", BOp::NonInt(_) => "non-int-operand" }
+               BOp::WriteString(..) => "write_string", BOp::Find(..) => "find", BOp::Reverse(..) => "reverse", BOp::Swap(..) => "swap", BOp::ReadFile { .. } => "fs_read_bytes", BOp::FsClose(_) => "fs_close", BOp::NetClose(_) => "net_close", BOp::NonInt(_) => "non-int-operand" }
 }
 
 
@@ -220,6 +238,11 @@ fn parse_bops(text: &str) -> Vec<BOp> {
 
 fn parse_one(t: &str) -> BOp {
     {
+        if t.starts_with("let rf") {
+            let len: usize = t.split("/f").last().and_then(|x| x.split(".bin").next()).and_then(|x| x.parse().ok()).expect("fixture file");
+            let n: i64 = t.split("read_bytes(").nth(1).and_then(|x| x.split(", ").nth(1)).and_then(|x| x.split(')').next()).and_then(|x| x.trim().parse().ok()).expect("count");
+            return BOp::ReadFile { file: FILE_LENS.iter().position(|l| *l == len).expect("known file"), n, uniq: 900_000_000 + (n as u64 % 1000) * 1000 + len as u64 };
+        }
         if let Some(r) = t.strip_prefix("netw.close(") { return BOp::NetClose(r.trim_end_matches(')').trim().parse().expect("int")); }
         let t = t.strip_prefix("bytes.").or_else(|| t.strip_prefix("fsys.")).unwrap_or(t);
         let open = t.find('(').expect("(");
@@ -274,6 +297,14 @@ fn gen_bop(rng: &mut Rng, r: &RefB, f32ok: bool, dist: &mut Dist) -> BOp {
         if live.is_empty() || (live.len() < 5 && rng.chance(1, 6)) { dist.hit("valid:alloc"); return BOp::Alloc(rng.range_i64(1, 24)); }
         let h = *rng.pick(&live);
         let len = r.live[&h].len() as i64;
+        if live.len() < 6 && rng.chance(1, 12) {
+            // a byte buffer produced by fs.read_bytes: exact, short (count larger than the file), empty file, zero count
+            let file = rng.below(FILE_LENS.len() as u64) as usize;
+            let len = FILE_LENS[file] as i64;
+            let n = *rng.pick(&[0i64, 1, (len - 1).max(0), len, len + 1, 2 * len + 5, 1000, 1_000_000]);
+            dist.hit(if n > len { "valid:fs.read_bytes-short-read" } else if len == 0 { "valid:fs.read_bytes-empty-file" } else if n == len { "valid:fs.read_bytes-exact" } else { "valid:fs.read_bytes" });
+            return BOp::ReadFile { file, n, uniq: rng.next_u64() % 1_000_000_000 };
+        }
         if rng.chance(1, 25) {
             // a byte-buffer handle given to another module's close
             return if rng.chance(1, 2) { dist.hit("valid-handle:fs.close"); BOp::FsClose(h) } else { dist.hit("valid-handle:net.close"); BOp::NetClose(h) };
@@ -338,6 +369,8 @@ fn gen_bop(rng: &mut Rng, r: &RefB, f32ok: bool, dist: &mut Dist) -> BOp {
             11 => format!("bytes.write_string({}, 0, {})", g, *rng.pick(&["1", "null", "true"])), 12 => format!("bytes.free({})", *rng.pick(&["1.5", "true", "\"s\""])),
             _ => format!("bytes.swap({}, {}, 0)", g, bad),
         };
+        // fs.read_bytes on something that is not an open file, or with a bad count: refused, nothing charged
+        let t = if rng.chance(1, 4) { dist.hit("malformed:fs.read_bytes"); match rng.below(3) { 0 => format!("fsys.read_bytes({}, 4)", g), 1 => format!("fsys.read_bytes({}, -1)", g), _ => format!("fsys.read_bytes({}, 4)", fresh + 3) } } else { t };
         return BOp::NonInt(t);
     }
     let k = rng.below(12);
@@ -468,6 +501,57 @@ pub fn limits(max_alloc: i64, dist: &mut Dist) {
     }
 }
 
+/// fs.read_bytes as a producer of byte buffers, beyond what one modelled operation can express: several reads on
+/// one open file (the later ones short or at end of file), interleaved with frees; after every step
+/// bytes_allocated() must be the total length of the live byte buffers.  Oracle only.
+#[cfg(vbxq_aelys_lang_verif)]
+pub fn fsread(dist: &mut Dist) {
+    let d = fixture();
+    let mut vm = vmrun::new_vm_trusted(64 << 20);
+    let (c, _, e) = vmrun::input(&mut vm, "needs std.bytes\nneeds std.fs as fsys\n0", 1);
+    if c != OK_VAL { println!("!HARNESS\tfsread prelude failed: {} {}", c, e); return; }
+    // (source, expected length of the buffer the step creates (-1: none), frees handle (-1: none))
+    let steps: Vec<(String, i64, i64)> = vec![
+        (format!("let fa = fsys.open(\"{}/f10.bin\", \"r\")\nfa", d), -1, -1),          // handle 0 = the file
+        ("fsys.read_bytes(0, 4)".into(), 4, -1),                                          // 1
+        ("fsys.read_bytes(0, 1000000)".into(), 6, -1),                                    // 2: short read, 999 994 bytes to give back
+        ("fsys.read_bytes(0, 1000000)".into(), 0, -1),                                    // 3: at end of file
+        ("bytes.free(2)".into(), -1, 2),
+        ("fsys.read_bytes(0, 0)".into(), 0, -1),                                          // reuses slot 2
+        ("bytes.free(1)".into(), -1, 1),
+        ("bytes.free(2)".into(), -1, 2),
+        ("bytes.free(3)".into(), -1, 3),
+        ("fsys.close(0)".into(), -1, -1),
+        (format!("let fb = fsys.open(\"{}/f0.bin\", \"r\")\nfb", d), -1, -1),
+        ("fsys.read_bytes(0, 16777216)".into(), 0, -1),                                   // MAX_BUF from an empty file
+        ("fsys.close(0)".into(), -1, -1),
+        (format!("let fc = fsys.open(\"{}/f100.bin\", \"r\")\nfc", d), -1, -1),
+        ("fsys.read_bytes(0, 100)".into(), 100, -1),                                      // exact
+        ("fsys.read_bytes(0, 1)".into(), 0, -1),
+        ("fsys.close(0)".into(), -1, -1),
+    ];
+    let mut live: BTreeMap<i64, i64> = BTreeMap::new();
+    for (i, (src, made, freed)) in steps.iter().enumerate() {
+        let (c, bits, detail) = vmrun::input(&mut vm, src, 1);
+        dist.hit("fsread:steps");
+        let hist = || steps[..=i].iter().map(|s| s.0.replace('\n', " ")).collect::<Vec<_>>().join("; ");
+        if c != OK_VAL { println!("!ORACLE\tbytes-oracle:fsread:valid-access-rejected\t`{}` failed: {}\tstep {} of: {}", src.replace('\n', " "), detail.replace('\t', " "), i, hist()); return; }
+        if *made >= 0 {
+            let h = Value::from_raw(bits).as_int().unwrap_or(-1);
+            let got = match vm.get_resource(h as usize) { Some(aelys_runtime::Resource::ByteBuffer(b)) => b.data.len() as i64, _ => -1 };
+            if got != *made { println!("!ORACLE\tbytes-oracle:fsread:wrong-result\t`{}` produced a buffer of {} bytes, expected {}\tstep {} of: {}", src, got, made, i, hist()); return; }
+            live.insert(h, *made);
+        }
+        if *freed >= 0 { live.remove(freed); }
+        let total: i64 = live.values().sum();
+        let charged = vm.manual_heap().bytes_allocated() as i64;
+        if charged != total {
+            println!("!ORACLE\tbytes-oracle:accounting:after-fs_read_bytes-sequence\tafter `{}`: bytes_allocated() = {}, live byte buffers total {} bytes\tstep {} of: {}", src.replace('\n', " "), charged, total, i, hist());
+            return;
+        }
+    }
+}
+
 /// Resources of different kinds in one table: an operation of one module applied to a handle of another
 /// kind must be refused (or be the documented no-op) and must leave that resource alive.  Oracle only.
 #[cfg(vbxq_aelys_lang_verif)]
@@ -575,7 +659,7 @@ pub fn main(seed: u64, hist: u64, maxlen: u64, replay: Option<String>, dist: &mu
             // canonical observation: 0 int, 1 unit, 2 word, 9 error
             let (code, val): (i64, i128) = if c != OK_VAL { (9, 0) } else {
                 match &op {
-                    BOp::Alloc(_) | BOp::Size(_) | BOp::Clone(_) | BOp::FromString(_) | BOp::WriteString(..) | BOp::Find(..) => match v.as_int() { Some(n) => (0, n as i128), None => (2, bits as i128) },
+                    BOp::Alloc(_) | BOp::Size(_) | BOp::Clone(_) | BOp::FromString(_) | BOp::WriteString(..) | BOp::Find(..) | BOp::ReadFile { .. } => match v.as_int() { Some(n) => (0, n as i128), None => (2, bits as i128) },
                     BOp::Read { .. } | BOp::Equals(..) => (2, bits as i128),
                     BOp::Decode(..) => { let t = vm.value_to_string(v); decoded = t.as_bytes().to_vec();
                         let mut acc: i128 = 1; for b in t.as_bytes().iter().rev() { acc = acc * 256 + *b as i128; } (3, acc) }
